@@ -109,6 +109,7 @@ def check_import_identity():
 
 def run_check(prop, tier='quick', seed=0, strict=False, procs=None):
     t0 = time.time()
+    os.environ['VERIF_TIER_EFFECTIVE'] = tier
     procs = procs or int(os.environ.get('VERIF_PROCS', '16'))
     reg = registry()[prop]
     known = load_known()
@@ -180,6 +181,10 @@ def run_check(prop, tier='quick', seed=0, strict=False, procs=None):
             obligations += 1
             solver_ms += o['ms']
             rec = {k: o[k] for k in ('id', 'kind', 'result', 'instances', 'ms', 'solver', 'line')}
+            if o.get('crosscheck'):
+                rec['crosscheck'] = o['crosscheck']
+            if o.get('disagreement'):
+                checker_defects.append('solver disagreement on %s (discharged, but the cross-check found a model)' % o['id'])
             ob_records.append(rec)
             if o['result'] == 'discharged':
                 discharged += 1
